@@ -183,6 +183,7 @@ class SymEx:
         self.roundings = 0
         self.reads_undef = []
         self.pc = []             # path condition stack (bool terms)
+        self.libm_calls = 0
 
     def need(self, cond, text):
         """Record a condition the code relies on at this point (guarded by the path condition)."""
@@ -496,7 +497,7 @@ class SymEx:
             if isinstance(v, bool):
                 return TRUE if v else FALSE
             if self.mode == 'NOISY' and e[1][0] == 'f':
-                return self.round_const(Fraction(v), e[1])
+                return num(self.rnd(Fraction(v), e[1]))
             return num(v)
         if k in ('var', 'field', 'index', 'pidx', 'deref'):
             p = self.lval(e, env, st)
@@ -525,7 +526,9 @@ class SymEx:
             t = e[1]
             if t[0] == 'f':
                 a = self.tonum(a)
-                if self.mode == 'NOISY' and not (is_num(a) and self.exact_in(a[1], t)):
+                if self.mode == 'NOISY':
+                    if is_num(a):
+                        return num(self.rnd(a[1], t))
                     src = e[2][1]
                     if src[0] == 'f' and self.wider_eq(t, src):
                         return a
@@ -580,6 +583,8 @@ class SymEx:
             p = self.lval(e[2], env, st)
             self.store(st, p, v)
             return v
+        if k == 'table':
+            return e
         raise Unsupported('symex expression %s' % k)
 
     def binop(self, e, env, st):
@@ -598,6 +603,9 @@ class SymEx:
             return lor(a, b)
         a = self.ev(e[3], env, st)
         b = self.ev(e[4], env, st)
+        if isinstance(a, tuple) and a and a[0] in ('iterv', 'strv'):
+            eq = (a == b)
+            return (TRUE if eq else FALSE) if op == '==' else (FALSE if eq else TRUE)
         if isinstance(a, Ptr) or isinstance(b, Ptr):
             return self.ptrop(op, a, b)
         if op in ('<', '<=', '>', '>=', '==', '!='):
@@ -616,9 +624,11 @@ class SymEx:
                     raise Unsupported('symbolic integer division')
                 self.need(cmp('!=', b, num(0)), 'divisor non-zero')
             r = mk(op, a, b)
-            if self.mode == 'NOISY' and t[0] == 'f' and not is_num(r):
-                return self.noise(r)
-            if self.mode == 'NOISY' and t[0] == 'f' and is_num(r) and not self.exact_in(r[1], t):
+            if self.mode == 'NOISY' and t[0] == 'f':
+                if is_num(r):
+                    return num(self.rnd(r[1], t))     # constant sub-expression: exact IEEE emulation
+                if (is_num(a) and a[1] in (1, -1) and op == '*') or (is_num(b) and b[1] in (1, -1) and op in ('*', '/')):
+                    return r
                 return self.noise(r)
             return r
         if op == '%' and is_num(a) and is_num(b):
@@ -642,6 +652,8 @@ class SymEx:
         name = e[2]
         args = [self.ev(a, env, st) for a in e[3]]
         if name == 'PI':
+            if self.mode == 'NOISY':
+                return self.tonum(args[0])        # the literal the code uses, rounded to its type
             return self.pi()
         if name == 'sqrt':
             x = self.tonum(args[0])
@@ -667,6 +679,11 @@ class SymEx:
                 r = num(1)
                 for _ in range(int(n[1])):
                     r = mk('*', r, x)
+                if self.mode == 'NOISY':
+                    self.libm_calls += 1
+                    if is_num(r):
+                        return num(self.rnd(r[1], e[1]))   # libm pow assumed correctly rounded (+1 ulp slack counted)
+                    return self.noise(r)
                 return r
             return self.app('pow', [x, self.tonum(n)])
         if name == 'abs':
@@ -674,7 +691,56 @@ class SymEx:
             return ite(cmp('>=', x, num(0)), x, neg(x)) if not is_num(x) else num(abs(x[1]))
         if name in ('acos', 'cbrt', 'exp', 'log', 'log2', 'log10', 'asin', 'atan', 'cos', 'sin', 'tan', 'hash'):
             return self.app(name, [self.tonum(a) for a in args])
+        if name.startswith('table_') or name.startswith('iter_'):
+            return self.table_lib(e, args, st)
         raise Unsupported('library function %s in symex' % name)
+
+    def table_rows(self, tbl):
+        from .lower import split_targs
+        tid = tbl[2]
+        nm, targs = tid.split('<', 1)
+        return nm, self.low.get_tables().rows(nm, tuple(x.strip() for x in split_targs(targs[:-1])))
+
+    def item_val(self, it):
+        if it[0] == 'enum':
+            return num(self.low.enumconst[it[1]][2])
+        if it[0] == 'str':
+            return ('strv', it[1])
+        return it
+
+    def table_lib(self, e, args, st):
+        name = e[2]
+        if name == 'table_end':
+            return ('iterv', -1)
+        if name in ('table_find', 'table_at', 'table_dispatch'):
+            nm, rows = self.table_rows(e[3][0])
+            key = args[1]
+            if not (is_num(key) or (isinstance(key, tuple) and key[0] == 'strv')):
+                raise Unsupported('table lookup with symbolic key (CBMC route handles symbolic enumerators)')
+            idx = -1
+            for i, (k, v) in enumerate(rows):
+                if self.item_val(k) == key:
+                    idx = i
+                    break
+            if name == 'table_find':
+                return ('iterv', idx)
+            if idx < 0:
+                self.need(FALSE, 'lookup hits: %s has no row for the key' % nm)
+                return self.fresh('miss')
+            if name == 'table_at':
+                return self.item_val(rows[idx][1])
+            g = self.low.func_for(rows[idx][1][1])
+            return self.call(g, args[2:], st)
+        if name in ('iter_second', 'iter_first'):
+            it = args[0]
+            nm, rows = self.table_rows(e[3][1])
+            if not (isinstance(it, tuple) and it[0] == 'iterv'):
+                raise Unsupported('symbolic iterator')
+            if it[1] < 0:
+                self.need(FALSE, 'lookup hits: end() iterator of %s dereferenced' % nm)
+                return self.fresh('miss')
+            return self.item_val(rows[it[1]][1 if name == 'iter_second' else 0])
+        raise Unsupported(name)
 
     def app(self, f, args):
         self.funs[f] = len(args)
@@ -695,6 +761,10 @@ class SymEx:
         u = num(self.u)
         self.assumes.append(land(cmp('<=', neg(u), d), cmp('<=', d, u)))
         return mk('*', r, mk('+', num(1), d))
+
+    def rnd(self, fr, t):
+        from .cemit import round_to
+        return round_to(fr, t[1])
 
     def exact_in(self, fr, t):
         from .cemit import round_to
